@@ -25,9 +25,10 @@
     C15_keeps_undeclarations   no binding to the no-namespace id (xmlns="", xmlns:p="") is ever removed, node
                           by node, any call node, given unique prefixes per element in the call's subtree
                           (C15_keeps_undeclarations_unique_needed: closed witness without it)
-    C15_idem_partial      a second call removes nothing when, in the call's subtree, no prefix is declared
-                          twice on a path (noShadow) and no attribute is in a namespace declared as default
-                          namespace on its element or above (noFlag); C15_idem_needs_noShadow /
+    C15_idem_partial      a second call removes nothing when, in the call's subtree, no prefix is ever
+                          re-bound to another namespace further down a path (noRebind; repeating the same
+                          declaration is allowed) and no attribute is in a namespace declared as default
+                          namespace on its element or above (noFlag); C15_idem_needs_noRebind /
                           C15_idem_needs_noFlag: each guard alone does not suffice (closed witnesses)
 -/
 import XotModel.Lemmas.ScopeDedup
@@ -35,6 +36,7 @@ import XotModel.Lemmas.ScopeKeepNames
 import XotModel.Lemmas.ScopeInner
 import XotModel.Lemmas.ScopeUndecl
 import XotModel.Lemmas.ScopeIdem
+import XotModel.Lemmas.ScopeIdemGuards
 
 namespace XotModel.Props
 open XotModel
@@ -193,31 +195,43 @@ theorem C15_keeps_undeclarations_unique_needed :
 /-! ### Idempotence -/
 
 /-- A second call removes nothing — under two guards on the subtree the call is made on:
-    `noShadow []`: no prefix is declared twice on any path (nothing can be un-shadowed by a
-    removal); `noFlag env []`: no attribute name is in a namespace that is declared as the DEFAULT
+    `noRebind []`: no element declares a prefix twice, and a prefix that is declared again further
+    down a path is bound to the same namespace there (so no removal can un-shadow a different
+    binding; the typical redundancy `xmlns:p="A"` repeated below `xmlns:p="A"` is allowed);
+    `noFlag env []`: no attribute name is in a namespace that is declared as the DEFAULT
     namespace on the attribute's element or on an element above it (the DeduplicateTracker never
     sets a flag, so no declaration owes its survival to a flag that a removal can strand).
-    Both are needed: `C15_idem_needs_noShadow`, `C15_idem_needs_noFlag`.  Exhaustive evaluation
+    Both are needed: `C15_idem_needs_noRebind`, `C15_idem_needs_noFlag`.  Exhaustive evaluation
     of the model over 1 062 882 three-element trees (chains and forks, three prefixes incl. the
     default, two namespaces, optional namespaced attribute per element): 55 068 are not
-    idempotent; of those 60 satisfy noShadow only, 9 880 noFlag only, none both. -/
+    idempotent; 9 880 of those satisfy noFlag, 60 have no prefix declared twice on a path at all;
+    none of the 100 354 trees with both guards is among them. -/
 theorem C15_idem_partial (env : Env) (t t1 : Tree) (path : Path) (sub : Tree)
-    (hs : t.at? path = some sub) (hg : noShadow [] sub) (hf : noFlag env [] sub)
+    (hs : t.at? path = some sub) (hg : noRebind [] sub) (hf : noFlag env [] sub)
     (h1 : deduplicateNamespaces env t path = some t1) :
     deduplicateNamespaces env t1 path = some t1 :=
   dedup_idem env t t1 path sub hs hg hf h1
 
 /-- The guards stated once for the whole tree serve every call node. -/
 theorem C15_idem_partial_tree (env : Env) (t t1 : Tree) (path : Path)
-    (hg : NoShadowing t) (hf : noFlag env [] t)
+    (hg : noRebind [] t) (hf : noFlag env [] t)
     (h1 : deduplicateNamespaces env t path = some t1) :
     deduplicateNamespaces env t1 path = some t1 := by
   obtain ⟨sub, hs⟩ := deduplicateNamespaces_isSome env t t1 path h1
-  exact dedup_idem env t t1 path sub hs (noShadow_at path t sub _ hs hg)
+  exact dedup_idem env t t1 path sub hs (noRebind_at path t sub _ hs hg)
     (noFlag_at env path t sub _ hs hf) h1
 
-/-- `noFlag` alone does not do: the witness of `C15_idem_false` has no attributes at all. -/
-theorem C15_idem_needs_noShadow :
+/-- `NoShadowing` (the guard of `C15_serialises_partial`) is a special case of `noRebind`. -/
+theorem C15_idem_partial_noShadowing (env : Env) (t t1 : Tree) (path : Path)
+    (hg : NoShadowing t) (hf : noFlag env [] t)
+    (h1 : deduplicateNamespaces env t path = some t1) :
+    deduplicateNamespaces env t1 path = some t1 :=
+  C15_idem_partial_tree env t t1 path
+    (noRebind_of_noShadow t [Env.xmlPrefix] [] (by simp) hg) hf h1
+
+/-- `noFlag` alone does not do: the witness of `C15_idem_false` has no attributes at all
+    (and re-binds `q` from `C` to `A`). -/
+theorem C15_idem_needs_noRebind :
     ¬ ∀ (env : Env) (t t1 : Tree), noFlag env [] t →
         deduplicateNamespaces env t [] = some t1 → deduplicateNamespaces env t1 [] = some t1 := by
   intro h
@@ -239,11 +253,12 @@ def c15IdemWitness2 : Tree :=
 
 def c15IdemEnv2 : Env := { namespaces := [], prefixes := [], names := [(['a'], 0), (['x'], 2)] }
 
-/-- `noShadow` alone does not do: `<r xmlns:p="A"><a xmlns="A"><b xmlns:q="A" q:x=""/></a></r>`.
+/-- `noRebind` (even `noShadow`) alone does not do:
+    `<r xmlns:p="A"><a xmlns="A"><b xmlns:q="A" q:x=""/></a></r>`.
     The first call keeps `xmlns:q` (the attribute flagged the entry of `xmlns="A"`) and removes
     `xmlns="A"`; the second call finds nothing flagged and removes `xmlns:q`. -/
 theorem C15_idem_needs_noFlag :
-    ¬ ∀ (env : Env) (t t1 : Tree), noShadow [] t →
+    ¬ ∀ (env : Env) (t t1 : Tree), noShadow [] t → noRebind [] t →
         deduplicateNamespaces env t [] = some t1 → deduplicateNamespaces env t1 [] = some t1 := by
   intro h
   have key : ((deduplicateNamespaces c15IdemEnv2 c15IdemWitness2 []).bind fun t1 =>
@@ -254,7 +269,8 @@ theorem C15_idem_needs_noFlag :
     simp [c15IdemWitness2, noShadow, noShadow.noShadowList, nsDecls_node, declsOfKids, Tree.value]
   cases hd : deduplicateNamespaces c15IdemEnv2 c15IdemWitness2 [] with
   | none => rfl
-  | some t2 => simp [h c15IdemEnv2 c15IdemWitness2 t2 hg hd]
+  | some t2 =>
+    simp [h c15IdemEnv2 c15IdemWitness2 t2 hg (noRebind_of_noShadow _ [] [] (by simp) hg) hd]
 
 /-! ### Non-vacuity -/
 
@@ -312,5 +328,19 @@ example : noFlag { namespaces := [], prefixes := [], names := [(['a'], 2), (['x'
   simp [c15PartialWitness, noFlag, noFlag.noFlagList, Tree.attrs, Tree.attributeNodes, Tree.kids,
     Tree.value, Value.category, Tree.getNamespace, nsDecls_node, declsOfKids, Env.emptyPrefix,
     Env.nsOfName]
+
+/-- `<a xmlns:p="A"><b xmlns:p="A"><c xmlns:q="A"/></b></a>`: `p` is declared twice on a path (not
+    `NoShadowing`) but never re-bound: both guards of `C15_idem_partial` hold, the first call removes
+    two declarations, the second none. -/
+def c15RebindWitness : Tree :=
+  .node (.element 0) [.node (.namespace 2 2) [],
+    .node (.element 0) [.node (.namespace 2 2) [], .node (.element 0) [.node (.namespace 3 2) []]]]
+
+example : noRebind [] c15RebindWitness := by
+  simp [c15RebindWitness, noRebind, noRebind.noRebindList, nsDecls_node, declsOfKids, Tree.value]
+example : noFlag {} [] c15RebindWitness := by
+  simp [c15RebindWitness, noFlag, noFlag.noFlagList, Tree.attrs, Tree.attributeNodes, Tree.kids,
+    Tree.value, Value.category]
+example : (deduplicateNamespaces {} c15RebindWitness []).map declsOf = some [[(2, 2)], [], []] := by decide
 
 end XotModel.Props
